@@ -51,6 +51,19 @@ class World:
         self.dyn = {}          # directories with symbolically named entries: path -> DynDir (mirsym/summ_dyn.py)
         self.dyn_candidates = set()
 
+    def clone(self):
+        """an independent copy of the file-system state (same symbolic terms): for self-composition"""
+        w = World(self.ctx, self.perms)
+        for p, n in self.fs.items():
+            w.fs[p] = Node(n.kind, n.mode, n.content, list(n.targets), n.sel)
+        w.env, w.cwd, w.dyn_candidates = dict(self.env), self.cwd, set(self.dyn_candidates)
+        for p, d in self.dyn.items():
+            from .summ_dyn import DynDir
+            dd = DynDir()
+            dd.entries = [[nm, Node(n.kind, n.mode, n.content, list(n.targets), n.sel)] for nm, n in d.entries]
+            w.dyn[p] = dd
+        return w
+
     # ---- universe
     def add(self, path, kind, **kw):
         n = Node(kind, **kw)
